@@ -305,7 +305,7 @@ func (fs *realFS) ModKey(path string) (ModKey, error) {
 		defer fs.watchMutex.Unlock()
 		fs.watchMutex.Lock()
 		data, ok := fs.watchData[path]
-		if !ok {
+		if !ok || data.state == stateDirUnreadable {
 			if err == modKeyUnusable {
 				data.state = stateFileUnusableModKey
 			} else if err != nil {
